@@ -7,6 +7,58 @@ COMMON_ASSUME = [
 ]
 
 PROPS = {
+    # temporary entry added by the C09 builder (lead: replace/adjust as needed)
+    "C09": {
+        "pkg": "c09",
+        "level": "exploration",
+        "rule": ("two parties driven round by round, every message through serde.MarshalCBOR -> bytes -> UnmarshalCBOR; session "
+                 "contexts from a drawn seed, one SHAKE stream per party. ecbbot: group {k256, p256, edwards25519 prime subgroup, "
+                 "pallas, BLS12-381 G1}, xi in {8,16,24,32,64,128}, L in 1..4; VSOT: curve {k256, p256, pallas}, hash {sha256, sha512, "
+                 "sha3-256}, same sizes; SoftSpoken: xi = 8k (k in {1,2,3,4,8,16,17,32,64}), L a multiple of 128/gcd(xi,128), hash, "
+                 "base seeds either constructed (128 pairs of distinct 16/32/64-byte strings, Delta in {drawn, all-1, alternating, "
+                 "single 1, single 0}; all-zero Delta excluded) or taken from a real 128-instance ecbbot(+ToBitsOutput) / VSOT run that "
+                 "is itself checked; rvole over the extension (k256, p256, pallas; xi = 512) and over ecbbot (k256, p256, ed25519, "
+                 "pallas; xi = 416), l in 1..3, input entries from {0, 1, 2, q-1, drawn}, Bob's choice vector beta served as the first "
+                 "read of his random source. Choice vectors: all-0, all-1, both alternations, single 1, single 0, drawn. Oracle: output "
+                 "sizes as configured; for every instance j and block l the receiver's message equals the sender's message selected by "
+                 "bit j (bit j mod 8 of byte j/8) and the two sender messages differ (byte encodings); rvole: c[i]+d[i] == a[i]*b mod q "
+                 "on math/big with typed-in group orders, b as output by Bob, b == 0 for beta = 0. Faults: ONE field of the decoded "
+                 "message altered (bit flip of a byte string, scalar +1 / negated / zeroed / copied from a neighbour, B replaced by "
+                 "B+G / 2B / -B), re-encoded (the encoding must change), delivered: SoftSpoken X (every byte), T[i] (drawn rows by "
+                 "Delta_i; stratified sample of 20 rows x Delta_i in quick, all 128 in thorough), U[i] (payload / check bits, by Delta_i); "
+                 "rvole ATilde[j][i] (beta_j = 0 / 1 x payload / check column), Eta[k] (beta != 0), Mu, and the inner extension "
+                 "message; VSOT Xi, RhoPrime, Rho0Digest, Rho1Digest (by the instance's choice bit), B, proof: the consuming round "
+                 "(VSOT: or a later round) must return an error and the run must not complete; panics are violations. ot.Pack / Unpack "
+                 "/ Get / Repeat / TransposePackedBits (both code paths) against an unpacked reference. Non-trivial: a fault case, or "
+                 "choices not all-equal, or L > 1; distinct = (protocol, xi, L, curve or seed kind, choice class, fault field class)."),
+        "assumptions": COMMON_ASSUME + [
+            "scalar-field orders are typed in from SEC 2, FIPS 186-4, RFC 8032, the Pasta and BLS12-381 specifications and compared with the library's at start-up",
+            "collisions of the hash functions / the transcript and 2^-128 coincidences of the GF(2^128) check are treated as impossible",
+            "Bob's choice vector is the first read of his random source in both rvole variants (verified on every run by the scripted source)",
+        ],
+        "quick": {"scale": 1, "shards": 16, "timeout_s": 900},
+        "thorough": {"scale": 8, "shards": 16, "timeout_s": 3600},
+    },
+    "C02": {
+        "pkg": "c02",
+        "level": "exploration",
+        "rule": ("access policies of five families (threshold, unanimity, antichain CNF, hierarchical levels, threshold/AND/OR gate "
+                 "trees with repeated leaves) from an independent model (vlib/policy): ENUMERATED every threshold/unanimity n<=6 (x5 "
+                 "fields), every antichain CNF n<=4, every hierarchical layout n<=6 into <=3 levels, every gate tree depth<=2 with <=5 "
+                 "leaves over n<=4, each under ordinal and one sparse ID map, EVERY subset of holders; DRAWN policies n<=7 with "
+                 "ordinal / sparse / large (up to 2^64-1) IDs over the scalar fields of k256, p256, ed25519, pallas, BLS12-381. "
+                 "Oracles: IsQualified, MaximalUnqualifiedSetsIter, MSP.Accepts, CanReconstruct == brute-force policy evaluator; "
+                 "e0 in rowspan(M_S) <=> qualified by math/big elimination on the matrix bytes (privacy criterion); every share == "
+                 "reference M*r / f(id) / f^(j)(id); Reconstruct == dealt secret for qualified, error for unqualified, wrong-length and "
+                 "foreign shares; ReconstructionVector*shares recomputed; Add/ScalarMul linear; additive conversion sums to the secret "
+                 "(lifted variants agree with lifting); constructive privacy witness r' through kw.NewDealerFunc; refused-by-design "
+                 "policies return errors; Tassa admission vs exact big-integer bound with a factor-2 guard band incl. IDs 2^64-2, "
+                 "2^64-1. One case = one (policy, ID map, scheme, subset). Non-trivial: subset neither empty nor full, or policy not a "
+                 "plain threshold; distinct = distinct (family, policy, scheme, subset class, field, secret class, ID regime)."),
+        "assumptions": COMMON_ASSUME,
+        "quick": {"scale": 1, "shards": 12, "timeout_s": 900},
+        "thorough": {"scale": 8, "shards": 16, "timeout_s": 3600},
+    },
     # temporary entry added by the C08 builder (lead: replace/adjust as needed)
     "C08": {
         "pkg": "c08",
@@ -23,6 +75,36 @@ PROPS = {
         "assumptions": COMMON_ASSUME,
         "quick": {"scale": 1, "shards": 16, "timeout_s": 900},
         "thorough": {"scale": 10, "shards": 16, "timeout_s": 7200},
+    },
+    # temporary entry added by the C13 builder (lead: replace/adjust as needed)
+    "C13": {
+        "pkg": "c13",
+        "level": "exploration",
+        "rule": ("10 group types (k256, p256, pallas, vesta, edwards25519 and its prime subgroup, curve25519 and its prime subgroup, "
+                 "BLS12-381 G1, G2) x formats (ToCompressed/FromCompressed, ToUncompressed/FromUncompressed, Bytes/FromBytes, CBOR via "
+                 "serde, FromAffine, FromAffineX), 11 fields (scalar and base fields; FromBytes, FromBytesBE, FromWideBytes, "
+                 "FromBytesBEReduce, CBOR) and BLS12-381 GT. Elements: identity, G, 2G, 3G, (n-1)G, drawn kG and -kG, the x = 0 points "
+                 "(P-256; BLS12-381 E(Fp) order 3), the 8 small-order points and mixed-order points kG+T of edwards25519/curve25519, "
+                 "points of E(Fp)/E'(Fp2) outside G1/G2 and cofactor points, built through FromAffine of the model's coordinates or "
+                 "ScalarMul. Byte strings: model-made valid encodings, every tag / flag-bit value, coordinate + p and = p, length +-1, "
+                 "empty, all-ff, zero, drawn strings of the right and of any length, twist abscissae, off-curve ordinates, bit flips, "
+                 "well-formed and malformed CBOR frames. Oracle = independent math/big model vlib/refcurve (SEC 1, pasta_curves, RFC 8032, "
+                 "RFC 7748, ZCash codecs; curve equation; [N]P subgroup test): (1) encode -> decode gives an Equal element, the model's "
+                 "encoder produces the same bytes and the model reads them back to the same coordinates; (2) elements unequal in the "
+                 "model have unequal encodings (P/-P, +G, vs identity, independent pairs); (3) whatever a decoder accepts is on the curve, "
+                 "has the coordinates the model reads (reduced mod p where the code reduces), is in the prime-order subgroup for the "
+                 "types that promise it, and on BLS12-381 has no coordinate >= p and no forbidden flag combination; canonical encodings "
+                 "of valid elements must be accepted; (4) wrong length, undefined tags/flags, off-curve coordinates must be errors; "
+                 "(5) no panic (vlib.NoPanic around every decoder and encoder). Harmless non-canonical acceptances are counted in classes "
+                 "of their own. Non-trivial: everything except a round trip of a plain drawn multiple kG; distinct = distinct (group or "
+                 "field, format/decoder, element class or byte-string class, constructor/relation)."),
+        "assumptions": COMMON_ASSUME + [
+            "the model vlib/refcurve is independent of the library (constants typed in from the standards, self-tested against crypto/elliptic, crypto/ecdh, crypto/ed25519 and published vectors)",
+            "library points are read out through AffineX/AffineY and the base field's Bytes(), library elements are built through FromAffine / ScalarMul; these are not point encoders",
+        ],
+        "env": {"GOMAXPROCS": "2", "GOGC": "400"},
+        "quick": {"scale": 1, "shards": 8, "timeout_s": 600},
+        "thorough": {"scale": 10, "shards": 16, "timeout_s": 3600},
     },
     # temporary entry added by the C16 builder (lead: replace/adjust as needed)
     "C16": {
@@ -165,5 +247,70 @@ PROPS = {
         ],
         "quick": {"scale": 1, "shards": 8, "timeout_s": 600},
         "thorough": {"scale": 12, "shards": 16, "timeout_s": 2400},
+    },
+    # temporary entry added by the C05 builder (lead: replace/adjust as needed)
+    "C05": {
+        "pkg": "c05",
+        "level": "exploration",
+        "rule": ("Feldman and Pedersen VSS (drawn) over a drawn access structure of the five families (threshold, unanimity, CNF, "
+                 "hierarchical, threshold-gate trees; n <= 5; non-ideal CNF / gate structures in which a holder owns several MSP rows), a "
+                 "drawn holder->ID map (ordinal / sparse / up to 2^64-1), a drawn group (k256, p256, edwards25519 prime subgroup, pallas, "
+                 "BLS12-381 G1 and G2), k in 1..4 dealings from vlib.NewPRNG seeds (secret 0 / 1 / q-1 / drawn / DealRandom; optionally one "
+                 "all-zero dealing) combined with VerificationVector.Op and Share.Add. Oracle (math/big, from the MSP matrix read entry by "
+                 "entry and the dealer's revealed column r): a presented (ID, value vector[, blinding vector]) is accepted by Verify (and "
+                 "mpc.NewBaseShard, ReconstructAndVerify) IFF the ID is a holder's and the vectors equal M_i.r of the (summed) committed "
+                 "column(s). Alterations: a coordinate +1 / random / zero / negated, coordinates swapped, length -1 / +1, another holder's "
+                 "ID with this value, that holder's own value, an unknown ID, the share of another dealing / of the combination, Pedersen "
+                 "blinding altered / swapped with the secret / length mismatch. A replaced vector entry j (random point, identity, "
+                 "another entry, +G, negated, doubled) must be rejected exactly by the holders with a non-zero coefficient in column j of "
+                 "their rows and still accepted by the others; a vector of length != D (truncated, extended by identity / random point, "
+                 "front-extended, doubled; also CBOR-decoded) must be refused by NewVerificationVector(.., msp) and accepted nowhere "
+                 "(Verify, NewLiftedDealerFunc, NewBasePublicMaterial, NewBaseShard, ReconstructAndVerify, Op) without a panic. "
+                 "ReconstructAndVerify over drawn qualified sets returns the secret; ReconstructInTheExponent of public shares equals V[0] "
+                 "= library ScalarBaseOp(secret). Plus a completely enumerated small scope on k256. Non-trivial: every case with an "
+                 "expected rejection and every k >= 2 case; distinct = (scheme, family, canonical policy, group, alteration kind, k, "
+                 "holder-has-several-rows)."),
+        "assumptions": COMMON_ASSUME + [
+            "group elements are compared with the library's Equal and built with its ScalarBaseOp / ScalarOp / Op (curve arithmetic is another property)",
+            "the access-structure -> MSP construction is taken as given (its matrix is read entry by entry; which sets it accepts is C02)",
+            "Pedersen: the second generator is sampled by pedersencom.SampleCommitmentKey from a seeded stream; no alteration uses its discrete logarithm",
+        ],
+        "quick": {"scale": 1, "shards": 12, "timeout_s": 900},
+        "thorough": {"scale": 10, "shards": 16, "timeout_s": 3600},
+    },
+    # temporary entry added by the C11 builder (lead: replace/adjust as needed)
+    "C11": {
+        "pkg": "c11",
+        "level": "exploration",
+        "rule": ("router: a rapid state machine over ONE router whose transport is owned by the property (2-5 members, 2-5 exchanges "
+                 "drawn from 20 (namespace chain, correlation id) pairs that are prefixes of each other / concatenate identically "
+                 "without the separator; no honest id contains '/'); actions: send by a member (through real peer routers or the "
+                 "router's own SendTo), deliver in-flight message k (any order), back-to-back bursts, identical duplicate, conflicting "
+                 "duplicate (hand-encoded CBOR, same sender + wire id, other payload of same / other length), injection from a "
+                 "non-member or under an id nobody receives, receive (subset of senders, rarely a non-member or nobody) started "
+                 "before or after the deliveries, cancel, cancel racing with a delivery, retry, close, receive after close. The "
+                 "reader re-entering Delivery.Receive is the exact deposit signal; a reference mailbox model (keyed by components, "
+                 "not by concatenation) decides after every step which receives must have completed (waited for with a bound of "
+                 "max(30 s, 200 x slowest honest receive): reaching it = lost wake-up) and with what (first payload per sender / "
+                 "ErrDuplicateMessage blaming a conflicting sender / context error / ErrRouterClosed), and that all others are still "
+                 "pending; at the end everything in flight is delivered and every cancelled receive retried (nothing lost). Plus "
+                 "wake-up stress (two interleaved ids, back-to-back deposits with drawn tiny delays), buffer accounting (> 10 000 "
+                 "dropped / absorbed / consumed messages with < 10 000 outstanding never fail the router), all pairs of the alphabet "
+                 "have distinct wire ids. echo broadcast: n = 3-5 over the shared switch, one equivocating sender played in the "
+                 "interceptor (per-recipient round-1 versions incl. undecodable, conflicting retransmissions, altered echoes), drawn "
+                 "delivery permutation and identical retransmissions: no two honest parties return different payloads for a sender, "
+                 "honest senders' payloads are exact, honest-only runs all succeed. runners: session setup, agree-on-random, Gennaro, "
+                 "Canetti (k256, threshold policies, n = 2-4) through Runner.Run under drawn delivery permutations and identical "
+                 "retransmissions: all complete, session ids / samples agree, C03 key-material oracle. Non-trivial: >= 2 correlation "
+                 "ids in flight concurrently and a reordering, duplicate, conflict or cancel (router); an equivocator, reordering or "
+                 "retransmission (echo, runners); distinct = abstracted action string (first 28 action kinds) resp. (n, api, split "
+                 "pattern, echo alteration, shuffle, duplication) resp. (protocol, n, t, duplication rate, namespaced)."),
+        "assumptions": COMMON_ASSUME + [
+            "each correlation identifier is used for one exchange (one ReceiveFrom, retried only after a cancellation); fewer than 10 000 undelivered messages are outstanding",
+            "goroutine interleavings inside the router are sampled by the Go scheduler (perturbed by drawn yields / spins), not enumerated; liveness is checked as bounded waiting",
+        ],
+        "quick": {"scale": 1, "shards": 8, "timeout_s": 900},
+        "thorough": {"scale": 8, "shards": 16, "timeout_s": 3600,
+                     "extra_variants": [{"name": "race", "race": True, "shards": 8, "env": {"VERIF_SCALE": "1"}}]},
     },
 }
